@@ -53,9 +53,9 @@ CLAIMED = {
             "Eleven theorems (Props/C07.v). partial: text decoding is a modelled codec (ASCII, Latin-1, cp1252 subset, UTF-8, UTF-16/32 LE/BE without surrogates) tied to Python's codecs by correspondence; bytewise terminator search in multi-byte charsets mirrors the code (F15 noted in DESIGN).",
             "Trusted: Coq kernel+VM; Flocq 4.1 and the standard-library real axioms (length arithmetic); CPython codecs. Genuine defect F6 found by this check and repaired by a fix: commit.",
             "DESIGN.md section 4 C07, 8.4"),
-    "C05": ("Coq proof (entry lists = flattened parameter lists with nested containers expanded in place; candidates = filter of inheritors by criteria; unique child / abstract dead end / concrete stop / ambiguity; every outcome lies on a unique-child path whose flattened entries fill the packet in order) + kernel-evaluated correspondence through packet_generator on random container trees",
-            "Eight theorems (Props/C05.v) for every definition, packet and fuel; field decoding is the C04/C07/C08 model.",
-            "Trusted: Coq kernel+VM; Flocq (+ real axioms) through the field decoders; acyclicity of loaded definitions (C17) for the fuel bound. Genuine defect F13 found by this check and repaired by a fix: commit.",
+    "C05": ("Coq proof (entry lists = flattened parameter lists with nested containers expanded in place; candidates = filter of inheritors by criteria; unique child / abstract dead end / concrete stop / ambiguity; every outcome lies on a unique-child path whose flattened entries fill the packet in order; definitions compiled from a linked document are ranked and on ranked definitions the walk and nesting fuel is irrelevant) + kernel-evaluated correspondence through packet_generator on random container trees",
+            "Eleven theorems (Props/C05.v) for every definition, packet and fuel; field decoding is the C04/C07/C08 model.",
+            "Trusted: Coq kernel+VM; Flocq (+ real axioms) through the field decoders; the fuel bound is now a theorem (C17 rank carried through Model/Compile.v). Genuine defect F13 found by this check and repaired by a fix: commit.",
             "DESIGN.md section 4 C05"),
     "C11": ("Coq proof (generator = in-order flat map of per-packet results; prefix unaffected by a later raising packet; error objects in place; schedule independence of any number of generator states) + kernel-evaluated correspondence under all option combinations + interleaved real generators and definition snapshots on the implementation",
             "Four theorems (Props/C11.v). partial: hidden shared mutable state in Python objects cannot be exhibited by a functional model; it is covered only by the interleaving and snapshot runs and by the correspondence.",
@@ -65,9 +65,9 @@ CLAIMED = {
             "Eight theorems (Props/C14.v) for all definitions and packets.",
             "Trusted: Coq kernel+VM; warnings are attributed to items by the numbers in their text. Genuine defect F8 found by this check (a packet with a negative-length field delivered clean) and repaired by a fix: commit.",
             "DESIGN.md section 4 C14"),
-    "C01": ("Coq proof by composition (C02 framing exactness + C11 flat map + C05 path/flattening, fields per C04/C07/C08) + kernel-evaluated end-to-end correspondence: generated documents rendered to XML, loaded with from_xtce, streams through the framer, every item compared on names, order, value, raw value and class",
-            "Theorems C01_stream_refines, C01_packet_refines for every definition of the modelled subset and every stream of well-formed packets. The subset and its exclusions are listed in DESIGN.md.",
-            "Trusted: Coq kernel+VM; Flocq (+ real axioms); the XML loader is tied to the document model under C09/C16/C17; correspondence sampling of documents.",
+    "C01": ("Coq proof by composition (C02 framing exactness + C11 flat map + C05 path/flattening, fields per C04/C07/C08; stated also for the definition obtained inside Coq from the parsed XML tree: load -> link -> compile) + kernel-evaluated end-to-end correspondence: generated documents rendered to XML, loaded with from_xtce, streams through the framer, every item compared on names, order, value, raw value and class against the whole model chain evaluated on the same XML text (Corr/E2E.v) and against the definition-level pipeline",
+            "Theorems C01_stream_refines, C01_packet_refines, C01_from_document for every definition of the modelled subset (resp. every document that loads) and every stream of well-formed packets. The subset and its exclusions are listed in DESIGN.md.",
+            "Trusted: Coq kernel+VM; Flocq (+ real axioms); int()/float() readings of comparison literals are passed to the model as a table (CPython number parsing modelled); correspondence sampling of documents.",
             "DESIGN.md section 4 C01"),
     "C18": ("Coq proof (per-packet accumulation step: other APIDs untouched, own APID appended at the end, columns only grow; field-set mismatch = ValueError; integer encodings of 1..64 bits fit their dtype; float64/inferred lossless; S/U lossless without trailing NUL, and a machine-checked refutation with witness for trailing NULs) + explicit numpy storage model + kernel-evaluated correspondence with create_dataset in raw and derived mode",
             "Seven theorems (Props/C18.v) incl. C18_trailing_nul_refuted (the full no-loss statement is false of the faithful model: numpy S/U dtypes strip trailing NULs; recorded as open known finding KF-C18-nul, matched structurally). partial: float32 exactness for binary32 fields is tied by correspondence.",
